@@ -66,6 +66,29 @@ let cand_of_string (s : string) : cand =
 
 let fuel = nat_of_int 2100
 
+(* ---- round 2: segment selection / buildDictionary ---- *)
+let fnv_tab (f : n -> n) (size : int) : string =
+  (* FNV-1a 64 over the table entries 0..size-1 written as 4 little-endian bytes each (presentation of a result only) *)
+  let h = ref 0xcbf29ce484222325L in
+  for i = 0 to size - 1 do
+    let v = int_of_n (f (n_of_int i)) in
+    for b = 0 to 3 do
+      h := Int64.logxor !h (Int64.of_int ((v lsr (8 * b)) land 0xff));
+      h := Int64.mul !h 0x100000001b3L
+    done
+  done;
+  Printf.sprintf "%Lu" !h
+
+let rec split_at n l = if n = 0 then ([], l) else match l with [] -> failwith "short list" | x :: t -> let (a, b) = split_at (n - 1) t in (x :: a, b)
+
+let show_copies cs = if cs = [] then "-" else String.concat "," (List.map (fun ((d, s), l) -> string_of_n d ^ ":" ^ string_of_n s ^ ":" ^ string_of_n l) cs)
+
+let show_bres (bytes : n list) (r : bres) : string =
+  match r with
+  | BuildTrap -> "SELTRAP"
+  | BuildFuel -> "FUEL"
+  | BuildDone (tail, copies) -> Printf.sprintf "DONE %s %s %s" (string_of_n tail) (show_copies copies) (hex_of_bytes (content_of bytes copies))
+
 let handle (ws : string list) : string =
   match ws with
   | ["chk"; k; d; m; a; b] -> b01 (cover_check (n_of_string k) (n_of_string d) (n_of_string m) (sp a b))
@@ -147,6 +170,61 @@ let handle (ws : string list) : string =
            let l = List.map (fun s -> let i = int_of_string s in (nat_of_int i, cs.(i))) (String.split_on_char ',' order) in
            show_best (run_finishes l best_init)
        | [] -> failwith "bad perm")
+  | "fbuild" :: d :: f :: acc :: k :: cap :: nb :: rest ->
+      let (sizes, tl) = split_at (int_of_string nb) rest in
+      let bytes = bytes_of_hex (match tl with [h] -> h | _ -> failwith "bad fbuild") in
+      (match fc_train bytes (List.map n_of_string sizes) (n_of_string d) (n_of_string f) (n_of_string acc) (n_of_string k) (n_of_string cap) with
+       | TErr -> "ERR"
+       | TTrap -> "TRAP"
+       | TOk (nd, fr, r) -> Printf.sprintf "OK %s %s %s" (string_of_n nd) (fnv_tab fr (1 lsl int_of_string f)) (show_bres bytes r))
+  | "fsel" :: d :: f :: acc :: k :: b :: e :: nb :: rest ->
+      let (sizes, tl) = split_at (int_of_string nb) rest in
+      let bytes = bytes_of_hex (match tl with [h] -> h | _ -> failwith "bad fsel") in
+      (match fc_select bytes (List.map n_of_string sizes) (n_of_string d) (n_of_string f) (n_of_string acc) (n_of_string k) (n_of_string b) (n_of_string e) with
+       | None -> "NONE"
+       | Some ((sg, fr'), c') ->
+           let size = 1 lsl int_of_string f in
+           let dirty = ref false in
+           for i = 0 to size - 1 do if c' (n_of_int i) <> N0 then dirty := true done;
+           Printf.sprintf "SEG %s %s %s %s %s" (string_of_n sg.sb) (string_of_n sg.se) (string_of_n sg.ss) (fnv_tab fr' size) (if !dirty then "dirty" else "clean"))
+  | "cbuild" :: d :: k :: cap :: n :: rest ->
+      let (keys, r1) = split_at (int_of_string n) rest in
+      let (fv, tl) = split_at (int_of_string n) r1 in
+      let bytes = bytes_of_hex (match tl with [h] -> h | _ -> failwith "bad cbuild") in
+      (match cv_build (List.map n_of_string keys) (List.map n_of_string fv) (n_of_string d) (n_of_string k) (n_of_string cap) with
+       | None -> "TRAP"
+       | Some r -> "OK " ^ show_bres bytes r)
+  | "csel" :: d :: k :: b :: e :: n :: rest ->
+      let (keys, r1) = split_at (int_of_string n) rest in
+      let (fv, _) = split_at (int_of_string n) r1 in
+      let keys = List.map n_of_string keys in
+      (match cv_select keys (List.map n_of_string fv) (n_of_string d) (n_of_string k) (n_of_string b) (n_of_string e) with
+       | None -> "NONE"
+       | Some ((sg, fr'), _) ->
+           Printf.sprintf "SEG %s %s %s %s" (string_of_n sg.sb) (string_of_n sg.se) (string_of_n sg.ss)
+             (if keys = [] then "-" else String.concat "," (List.map (fun kx -> string_of_n (fr' kx)) keys)))
+  | "cctx" :: d :: nb :: rest ->
+      (* COVER_ctx_init from the bytes: per-position frequency and the partition of the positions into d-mer groups
+         (each position labelled with the first position that carries the same d-mer: presentation only) *)
+      let (sizes, tl) = split_at (int_of_string nb) rest in
+      let bytes = bytes_of_hex (match tl with [h] -> h | _ -> failwith "bad cctx") in
+      (match cv_ctx bytes (List.map n_of_string sizes) (n_of_string d) with
+       | None -> "ERR"
+       | Some (keys, fvals) ->
+           let tbl = Hashtbl.create 64 in
+           let canon = List.mapi (fun i k -> match Hashtbl.find_opt tbl k with Some j -> j | None -> Hashtbl.add tbl k i; i) keys in
+           Printf.sprintf "OK %s %s"
+             (if fvals = [] then "-" else String.concat "," (List.map (function None -> "TRAP" | Some f -> string_of_n f) fvals))
+             (if canon = [] then "-" else String.concat "," (List.map string_of_int canon)))
+  | ["lb"; first; count; value; offs] ->
+      let o = List.map n_of_string (String.split_on_char ',' offs) in
+      string_of_n (lower_bound (nat_of_int (List.length o + 1)) o (n_of_string first) (n_of_string count) (n_of_string value))
+  | ["mapinit"; rep; size] ->
+      (match map_init (rep = "1") (n_of_string size) with None -> "ERR" | Some sl -> string_of_n sl)
+  | ["maphash"; sl; key] -> string_of_n (map_hash (n_of_string sl) (n_of_string key))
+  | ["hint"; rep; sel; nb] ->
+      (match hint_loop (nat_of_int 40) (n_of_string nb) (hint_start (rep = "1") (n_of_string sel)) with
+       | None -> "FUEL" | Some l -> String.concat "," (List.map string_of_n l))
   | _ -> failwith ("unknown case: " ^ String.concat " " ws)
 
 let () =
